@@ -75,7 +75,8 @@ package main
 //@   assert@before:Create called("ReadSystemFromFile")
 //@   assert@before:ReadSystemFromFile arg0 == cli.flagStr(context, "keys-file")
 
-// C14 / C15 — start: validate the mode, load the system, run, and after the interrupt request stop then await it
+// C14 / C15 — start: validate the mode, load the system, run, and after the interrupt request stop then await it;
+// once the servers ran, the command returns nil (exit status 0 after a stop)
 //@ func cmd:start
 //@   property C14 C15 C19
 //@   let mode = cli.flagStr(context, "mode")
@@ -85,6 +86,7 @@ package main
 //@   assert@before:RequestStop origin(deref(recv), "Run")
 //@   assert@return result == nil && called("Run") ==> called("RequestStop") && called("AwaitStop")
 //@   assert@return result == nil && called("Run") ==> trace == trace.ev(trace.ev(trace.ev(old(trace), "recv", sigint), "close", instance.stop), "recv", instance.closed)
+//@   assert@return called("Run") ==> result == nil
 
 //@ func cmd:start-from-s3
 //@   property C14 C15 C19
@@ -93,6 +95,7 @@ package main
 //@   assert@before:Run arg0.Mode == mode && origin(arg1, "ReadSystemFromS3.0")
 //@   assert@before:RequestStop origin(deref(recv), "Run")
 //@   assert@return result == nil && called("Run") ==> called("RequestStop") && called("AwaitStop")
+//@   assert@return called("Run") ==> result == nil
 
 // C19 — gnark's own logger writes to standard output unless it is redirected: main must hand it the repository's
 // logger (standard error) before any command runs, on every path (prove's "exactly one JSON document on standard
